@@ -914,14 +914,14 @@ def check_criteria(name, crits, tier, what):
     t0 = time.time()
     if tier == 'thorough':
         variants = (0, 1, 2, 3, 4, 5)
-    else:                                          # quick: all six places for every third criterion, else the two translator paths
-        variants = lambda n, crit: (0, 1, 2, 3, 4, 5) if n % 3 == 0 else (0, 1) if n % 3 == 1 else (2, 4)
+    else:                                          # quick: all six places for every fourth criterion, else the two translator paths
+        variants = lambda n, crit: (0, 1, 2, 3, 4, 5) if n % 4 == 0 else (0, 1) if n % 2 == 1 else (2, 4)
     batches = _matrix_batches(crits, MATRIX_VALUES, variants)
     return _collect(
         name,
         f'{len(crits)} criteria ({what}) x {len(MATRIX_VALUES)} cell values (ints, floats, 0, negatives, TRUE/FALSE, texts in both '
         f'cases, Cyrillic, > 50 characters, numeric and date-like texts, dates / date-times up to 2051, blank) x '
-        f'{"all 6 places" if tier == "thorough" else "6 places for every third criterion, 2 of the 6 for the others"} '
+        f'{"all 6 places" if tier == "thorough" else "6 places for every fourth criterion, 2 of the 6 for the others"} '
         f'(SUMIF with A5:A5 and with A5, SUMIFS, COUNTIFS first and second pair, AVERAGEIFS), each on a one-cell range with a '
         f'numeric target cell',
         'one evaluation = one formula value compared with the fold of every admissible selection of the single cell; '
@@ -957,7 +957,7 @@ def check_wildcards(tier, seed):
     t0 = time.time()
     rng = random.Random(seed * 7919 + 12)
     crits = wildcard_criteria(tier, rng)
-    values = WILD_TEXTS + ['hello world', 'Hello World!', 'hallo world']
+    values = (WILD_TEXTS if tier == 'thorough' else WILD_TEXTS[:22] + [7, BLANK]) + ['hello world', 'Hello World!', 'hallo world']
     variants = (2,) if tier == 'quick' else (lambda n, crit: (1, 2) if len(crit['val']) <= 3 else (2,))
     batches = _matrix_batches(crits, values, variants)
     # a few patterns in every place a criterion can stand
@@ -1309,9 +1309,9 @@ def check_contexts(tier, seed):
     batches.append({'sheets': [_fold_sheet()], 'items': _place(items, 0, FCOL, 30), 'mode': 'whole'})
     # (d) entry-point translation and (e) one Parser re-used for several entry cells
     items = items_for(some, 0, tag='entry_point')
-    batches.append({'sheets': [_fold_sheet()], 'items': _place(rng.sample(items, 12 if tier == 'quick' else len(items)), 0, FCOL, 30), 'mode': 'entry'})
+    batches.append({'sheets': [_fold_sheet()], 'items': _place(rng.sample(items, 8 if tier == 'quick' else len(items)), 0, FCOL, 30), 'mode': 'entry'})
     items = items_for(some, 0, tag='parser_reused')
-    batches.append({'sheets': [_fold_sheet()], 'items': _place(rng.sample(items, 12 if tier == 'quick' else len(items)), 0, FCOL, 30), 'mode': 'reuse'})
+    batches.append({'sheets': [_fold_sheet()], 'items': _place(rng.sample(items, 8 if tier == 'quick' else len(items)), 0, FCOL, 30), 'mode': 'reuse'})
     # (f) far rows and columns: the data block moved to rows 96.., 996.., columns Z / AAA / ZZ / XFA
     for (row0, col0, mode) in [(96, 1, 'whole'), (996, 1, 'whole'), (1, 20, 'whole'), (1, 699, 'entry'), (1, 16375, 'entry'),
                                (1048560, 1, 'entry')] + ([(1, 699, 'whole'), (1, 16375, 'whole'), (99, 26, 'whole')] if tier == 'thorough' else []):
